@@ -270,8 +270,11 @@ def main(tier, seed, collect=None):
     t0 = time.time()
     k = 48
     total = core.run_shards(run_shard, [(r, k, core.ALL_CFG) for r in range(k)], seed=seed, pid=PID)
+    other_hosts = core.run_on_hosts(PID, ["py310", "py311", "py313"], "quick", seed, total) if tier == "thorough" else []
+
     c = total.c
     cov = {
+        "converter_hosts": [core.HOST] + other_hosts,
         "evaluations": c["executions"],
         "distinct_nontrivial": c["must_reject"],
         "rule": "every (host, construct) pair and every illegal placement is one case (distinct key); non-trivial = it parses on this host and "
